@@ -30,6 +30,12 @@ def main():
             from clematis.io.log import rewrite_jsonl
 
             rewrite_jsonl(os.path.basename(dest), [{"i": i, "b": ch * 10} for i in range(max(1, size // 24))])
+        elif caller == "rewrite-extend":
+            # compaction of a log that grew: the previous content is a byte prefix of the new one
+            os.environ["CLEMATIS_LOG_DIR"] = os.path.dirname(dest)
+            from clematis.io.log import rewrite_jsonl
+
+            rewrite_jsonl(os.path.basename(dest), [{"i": i, "b": "x" * 10} for i in range(max(1, size // 24) + (40 if ch == "n" else 0))])
         os.write(2, b"@@DONE@@")
         print("ok")
         return 0
